@@ -367,7 +367,7 @@ FAMILIES = [
     ("binary", fam_binary, _q(BINARY) + _q(BINARY_PRIMS, "prims")),
     ("reduce", fam_reduce, _q(REDUCE) + _q(REDUCE_PRIMS, "prims")),
 ]
-QUICK_FAMILIES = ("unary", "binary", "reduce")
+QUICK_FAMILIES = ("unary", "binary", "reduce", "view", "index", "create", "clamp", "matmul", "norm")
 
 
 def _families(tier):
